@@ -548,3 +548,144 @@ Proof.
   destruct (lands_lin (moms c) (moms c') o k (clamp_index_le _ _) Hl) as [l1 [l2 [H1 [H2 [H3 H4]]]]].
   exists c', z, l1, l2. repeat split; assumption.
 Qed.
+
+(* ==== existing operations among themselves: whatever insert does (any strategy, any operation tree,
+        cached or not, succeeding or raising), the old linearisation is a subsequence of the new one ==== *)
+Inductive sub {A} : list A -> list A -> Prop :=
+  | sub_nil : sub [] []
+  | sub_skip x l l' : sub l l' -> sub l (x :: l')
+  | sub_keep x l l' : sub l l' -> sub (x :: l) (x :: l').
+
+Lemma sub_refl {A} (l : list A) : sub l l.
+Proof. induction l; constructor; assumption. Qed.
+Lemma sub_app {A} (a a' b b' : list A) : sub a a' -> sub b b' -> sub (a ++ b) (a' ++ b').
+Proof. intros Ha Hb. induction Ha; simpl; [exact Hb|constructor; assumption|constructor; assumption]. Qed.
+Lemma sub_nil_l {A} (l : list A) : sub [] l.
+Proof. induction l; constructor; assumption. Qed.
+Lemma sub_trans {A} (a b c : list A) : sub a b -> sub b c -> sub a c.
+Proof.
+  intros Hab Hbc. revert a Hab. induction Hbc as [|x l l' H IH|x l l' H IH]; intros a Hab.
+  - exact Hab.
+  - constructor. apply IH. exact Hab.
+  - inversion Hab; subst; [constructor; apply IH; assumption|constructor; apply IH; assumption].
+Qed.
+Lemma sub_insert {A} (l1 x l2 : list A) : sub (l1 ++ l2) (l1 ++ x ++ l2).
+Proof. apply sub_app; [apply sub_refl|]. rewrite <- (app_nil_l l2) at 1. apply sub_app; [apply sub_nil_l|apply sub_refl]. Qed.
+
+Lemma lin_insert_at_any (ms : list moment) x : forall k, exists l1 l2, lin ms = l1 ++ l2 /\ lin (insert_at k x ms) = l1 ++ x ++ l2.
+Proof.
+  change lin with (@concat opd). induction ms as [|m r IH]; intros k.
+  - exists [], []. split; [reflexivity|]. destruct k; unfold insert_at; simpl; rewrite app_nil_r; reflexivity.
+  - destruct k as [|k].
+    + exists [], (concat (m :: r)). split; reflexivity.
+    + destruct (IH k) as [l1 [l2 [H1 H2]]]. exists (m ++ l1), l2. unfold insert_at; fold (@insert_at moment). cbn [concat].
+      rewrite H1, H2, <- !app_assoc. split; reflexivity.
+Qed.
+
+Lemma sub_insert_at (ms : list moment) k x : sub (lin ms) (lin (insert_at k x ms)).
+Proof. destruct (lin_insert_at_any ms x k) as [l1 [l2 [H1 H2]]]. rewrite H2, H1. apply sub_insert. Qed.
+
+Lemma lin_blank (ms : list moment) k : lin (insert_at k [] ms) = lin ms.
+Proof. destruct (lin_insert_at_any ms [] k) as [l1 [l2 [H1 H2]]]. etransitivity; [exact H2|]. symmetry. exact H1. Qed.
+
+Lemma place_sub ms p it ms' : place ms p it = inl ms' -> sub (lin ms) (lin ms').
+Proof.
+  unfold place. intros H. destruct it as [o|m].
+  - destruct (Nat.eqb p (length ms)).
+    + injection H as <-. unfold lin. rewrite concat_app. simpl. rewrite <- (app_nil_r (concat ms)) at 1.
+      apply sub_app; [apply sub_refl|apply sub_nil_l].
+    + destruct (nth_error ms p) as [m|] eqn:En; [|discriminate]. destruct (with_operation m o) as [m'|] eqn:Ew; [|discriminate].
+      injection H as <-. apply with_operation_eq in Ew. subst m'.
+      destruct (lin_replace_nth ms p m (m ++ [o]) En) as [H1 H2]. rewrite H1, H2. apply sub_app; [apply sub_refl|].
+      rewrite <- app_assoc. apply sub_app; [apply sub_refl|]. apply (sub_insert [] [o]).
+  - injection H as <-. apply sub_insert_at.
+Qed.
+
+Lemma determine_lin st it p c1 ms1 : determine st it = (p, c1, ms1) -> lin ms1 = lin (i_ms st).
+Proof.
+  unfold determine. intros H. destruct (i_cache st) as [pc|].
+  - destruct (cache_append pc it) as [idx pc']. injection H as <- <- <-. reflexivity.
+  - destruct it as [o|m]; [destruct (i_s st)|]; injection H as <- <- <-; try reflexivity; apply lin_blank.
+Qed.
+
+Lemma place_item_sub st it st' e : place_item st it = (st', e) -> sub (lin (i_ms st)) (lin (i_ms st')).
+Proof.
+  unfold place_item. intros H. destruct (determine st it) as [[p c1] ms1] eqn:Ed.
+  pose proof (determine_lin _ _ _ _ _ Ed) as Hl. destruct (place ms1 p it) as [ms2|er] eqn:Ep.
+  - pose proof (place_sub _ _ _ _ Ep) as Hs. rewrite Hl in Hs. destruct (i_s st); injection H as <- <-; exact Hs.
+  - injection H as <- <-. cbn [i_ms]. rewrite Hl. apply sub_refl.
+Qed.
+
+Lemma place_items_sub its : forall st st' e, place_items st its = (st', e) -> sub (lin (i_ms st)) (lin (i_ms st')).
+Proof.
+  induction its as [|it r IH]; intros st st' e H; cbn [place_items] in H.
+  - injection H as <- <-. apply sub_refl.
+  - destruct (place_item st it) as [st1 [e1|]] eqn:E1.
+    + injection H as <- <-. eapply place_item_sub; exact E1.
+    + eapply sub_trans; [eapply place_item_sub; exact E1|eapply IH; exact H].
+Qed.
+
+Lemma do_batch_sub st b st' e : do_batch st b = (st', e) -> sub (lin (i_ms st)) (lin (i_ms st')).
+Proof.
+  unfold do_batch. intros H.
+  match type of H with context [place_items ?a b] => destruct (place_items a b) as [st3 e3] eqn:E3 end.
+  apply place_items_sub in E3. cbn [i_ms] in E3.
+  assert (H0 : lin (i_ms (if needs_blank st b
+              then mki (insert_at (i_k st) [] (i_ms st)) (i_cache st) (match i_s st with INLINE => S (i_k st) | _ => i_k st end) (i_s st) (i_maxp st)
+              else st)) = lin (i_ms st)) by (destruct (needs_blank st b); [apply lin_blank|reflexivity]).
+  rewrite H0 in E3. destruct e3; injection H as <- <-; exact E3.
+Qed.
+
+Lemma do_batches_sub bs : forall st st' e, do_batches st bs = (st', e) -> sub (lin (i_ms st)) (lin (i_ms st')).
+Proof.
+  induction bs as [|b r IH]; intros st st' e H; cbn [do_batches] in H.
+  - injection H as <- <-. apply sub_refl.
+  - destruct (do_batch st b) as [st1 [e1|]] eqn:E1.
+    + injection H as <- <-. eapply do_batch_sub; exact E1.
+    + eapply sub_trans; [eapply do_batch_sub; exact E1|eapply IH; exact H].
+Qed.
+
+Lemma latest_item_sub k st it st' e : latest_item k st it = (st', e) -> sub (lin (l_ms st)) (lin (l_ms st')).
+Proof.
+  unfold latest_item. intros H. destruct it as [o|m].
+  - destruct (_ <? Z.of_nat k).
+    + injection H as <- <-. apply sub_insert_at.
+    + destruct (_ <? _).
+      * destruct (nth_error (l_ms st) _) as [m|] eqn:En; [|injection H as <- <-; apply sub_refl].
+        destruct (with_operation m o) as [m'|] eqn:Ew; [|injection H as <- <-; apply sub_refl].
+        injection H as <- <-. cbn [l_ms]. apply with_operation_eq in Ew. subst m'.
+        destruct (lin_replace_nth (l_ms st) _ m (m ++ [o]) En) as [H1 H2]. rewrite H1, H2. apply sub_app; [apply sub_refl|].
+        rewrite <- app_assoc. apply sub_app; [apply sub_refl|]. apply (sub_insert [] [o]).
+      * injection H as <- <-. cbn [l_ms]. unfold lin. rewrite concat_app. simpl. rewrite <- (app_nil_r (concat (l_ms st))) at 1.
+        apply sub_app; [apply sub_refl|apply sub_nil_l].
+  - injection H as <- <-. apply sub_insert_at.
+Qed.
+
+Lemma latest_items_sub k its : forall st st' e, latest_items k st its = (st', e) -> sub (lin (l_ms st)) (lin (l_ms st')).
+Proof.
+  induction its as [|it r IH]; intros st st' e H; cbn [latest_items] in H.
+  - injection H as <- <-. apply sub_refl.
+  - destruct (latest_item k st it) as [st1 [e1|]] eqn:E1.
+    + injection H as <- <-. eapply latest_item_sub; exact E1.
+    + eapply sub_trans; [eapply latest_item_sub; exact E1|eapply IH; exact H].
+Qed.
+
+Lemma latest_batches_sub k bs : forall st st' e, latest_batches k st bs = (st', e) -> sub (lin (l_ms st)) (lin (l_ms st')).
+Proof.
+  induction bs as [|b r IH]; intros st st' e H; cbn [latest_batches] in H.
+  - injection H as <- <-. apply sub_refl.
+  - destruct (latest_items k st b) as [st1 [e1|]] eqn:E1.
+    + injection H as <- <-. eapply latest_items_sub; exact E1.
+    + eapply sub_trans; [eapply latest_items_sub; exact E1|eapply IH; exact H].
+Qed.
+
+Theorem insert_keeps_existing_order c i its s c' r :
+  insert c i its s = (c', r) -> sub (lin (moms c)) (lin (moms c')).
+Proof.
+  unfold insert. intros H. destruct s.
+  all: try (match type of H with context [do_batches ?a ?b] => destruct (do_batches a b) as [st e] eqn:E end;
+            apply do_batches_sub in E; destruct e; injection H as <- <-; exact E).
+  match type of H with context [insert_latest ?a ?b ?d] => destruct (insert_latest a b d) as [st e] eqn:E end.
+  unfold insert_latest in E. apply latest_batches_sub in E. destruct e; injection H as <- <-; [exact E|].
+  destruct (l_max st =? -1); exact E.
+Qed.
